@@ -302,6 +302,38 @@ class _Run:
             return urwid.BoxAdapter(base, n.w.height)
         return None
 
+    def listbox_item_height_depends_on_inner_focus(self) -> bool:
+        """True when some ListBox item is a Columns / GridFlow / Pile whose number of rows at the current width changes
+        with ITS OWN focus position (a Columns too narrow to show all columns shows those around its focus): ListBox
+        measures an item, then moves the focus inside it (move_cursor_to_coords / first selectable), and the height it
+        measured is stale.  Evaluated on a throw-away replica of the item."""
+
+        class Sink:
+            def leaf_event(self, *a):
+                pass
+
+        cols = self.size[0]
+        try:
+            for n in walk_containers(self.root):
+                if n.kind != "ListBox":
+                    continue
+                for c in n.kids:
+                    if c is None or c.kind not in ("Columns", "GridFlow", "Pile") or not c.kids:
+                        continue
+                    w = self.clone_widgets(c, Sink())
+                    if w is None:
+                        continue
+                    heights = set()
+                    for p in range(len(c.kids)):
+                        w.focus_position = p
+                        for f in (False, True):
+                            heights.add(w.rows((cols,), f))
+                    if len(heights) > 1:
+                        return True
+        except Exception as e:  # noqa: BLE001
+            self.guard(e, "item heights")
+        return False
+
     def replica_key_delivery(self, key):
         """Leaf ids a FRESH tree with the live structure and focus offers `key` to (None: not comparable)."""
 
@@ -521,7 +553,10 @@ class _Run:
                     self.guard(e, f"op {op}")
                     clause = {"key": "C08.2", "mouse": "C08.2", "render": "C08.6", "restore": "C08.7", "set_focus_path": "C08.7", "edit": "C08.5"}.get(k, "C08.1")
                     name = {"key": "keypress", "mouse": "mouse_event"}.get(k, k)
-                    self.violate(clause, f"{name}-raised:{core.exc_signature(e)}", f"step {i} {op} size {self.size} tree {self.describe(self.root)}: {core.format_exc(e)}")
+                    tag = ""
+                    if type(e).__name__ == "ListBoxError" and self.listbox_item_height_depends_on_inner_focus():
+                        tag = " [listbox-item-height-depends-on-its-inner-focus]"
+                    self.violate(clause, f"{name}-raised:{core.exc_signature(e)}{tag}", f"step {i} {op} size {self.size} tree {self.describe(self.root)}: {core.format_exc(e)}")
                     self.log.add("exc", [i, k, core.exc_signature(e)])
                     break
                 self.check_all(i)
